@@ -10,6 +10,16 @@ sys.path.insert(0, HERE)
 CHECKS = {}   # filled by vf/props modules that exist: id -> (category, text, note, technique, design_ref)
 
 TABLE = {
+    "C01": ("exploration",
+            "Wrappers on the real ArchSemantics.add_semantics / assign_optimal_throughput snapshot every instruction's micro-ops and pressure under uniform, one-pass and two-pass (CLI) scheduling on synthetic port models, on streams rendered from every shipped model's own forms and on the shipped corpus through the real CLI; each snapshot is judged by an independent Hall-condition feasibility oracle and the totals by recomputed column sums. Exploration is the honest level: the input space (models x kernels) is unbounded.",
+            "Trusted: vf/ref_sched.py (feasibility = non-negativity, support, total, Hall clause over unions of micro-op port sets), the tolerance 0.01 x sum|P_i| for optimised splits; shipped-model micro-ops are taken from the observed port_uops after checking they are an entry's data.",
+            "runtime monitoring: state snapshots at hooked methods + reference feasibility oracle (Hall condition)",
+            "C01"),
+    "C02": ("exploration",
+            "Same monitors as C01; the bounded family of the statement (3 ports, 14 single-micro-op forms, 5355 ordered kernels) is enumerated completely in both tiers and the CLI configuration compared with the exact fractional optimum (gap <= 0.15); on random synthetic and shipped-model kernels optimised <= uniform + 0.01 and optimised >= optimum - tolerance.",
+            "Trusted: vf/ref_sched.optimum (max over unions S of occurring port sets of confined cycles / |S|, minimum over alternative assignments).",
+            "runtime monitoring: bounded-exhaustive family + random kernels against an exact reference optimum",
+            "C02"),
     "C12": ("exploration",
             "Exhaustive enumeration of all ordered pairs of register names (x86: 180 names x 3 spellings, AArch64: 324 x 2) through the real parser and the real is_reg_dependend_of, judged by architectural family equality; exhaustive over the finite name space, so this is as strong as runtime observation gets for this property.",
             "Trusted: the architectural family table in vf/props/c12.py; operands are produced by the real parser.",
